@@ -34,6 +34,7 @@ type Program struct {
 	QuickFallback bool
 	FinalLimit    time.Duration
 	inconclN      int32 // inconclusive solver answers in the running obligation (fail fast, see tooManyInconclusive)
+	deadline      int64 // unix nanoseconds after which the running obligation is abandoned (wall-clock budget)
 	MaxSteps      int
 	Workers       int
 
@@ -63,6 +64,7 @@ var allowedPkgs = map[string]bool{
 	"cmp": true, "maps": true, "internal/stringslite": true, "unicode": true,
 	"crypto/subtle": true, "internal/byteorder": true, "crypto/internal/fips140/subtle": true,
 	"crypto/internal/constanttime": true, "io/fs": true, "io": true, "sync/atomic": true,
+	"encoding/base64": true,
 }
 
 func (p *Program) allowed(path string) bool { return allowedPkgs[path] }
@@ -191,6 +193,7 @@ type ObResult struct {
 	Nontrivial  int
 	Samples     []string
 	Budget      bool
+	Aborted     bool // stopped early: too many inconclusive answers or wall-clock budget used up
 	Decisions   int
 	WallS       float64
 	InternalErr []string
@@ -304,6 +307,15 @@ func (ex *Exec) interpretInit(init *ssa.Function) {
 func (p *Program) RunObligation(ob *Obligation, tier string) *ObResult {
 	ob.tierRun = tier
 	atomic.StoreInt32(&p.inconclN, 0)
+	// wall-clock budget: a check has to end; an obligation that overruns is reported inconclusive
+	wall := ob.Param("max_wall_s", 0)
+	if wall == 0 {
+		wall = 1500
+		if tier == "thorough" {
+			wall = 3 * 3600
+		}
+	}
+	atomic.StoreInt64(&p.deadline, time.Now().Add(time.Duration(wall)*time.Second).UnixNano())
 	smt.Distribute = ob.Param("expand", 0) == 1
 	t0 := time.Now()
 	r := &ObResult{Ob: ob, Ends: map[string]int{}, EndSamples: map[string][]string{}, Reached: map[string]bool{},
@@ -344,6 +356,7 @@ func (p *Program) RunObligation(ob *Obligation, tier string) *ObResult {
 			queue = queue[:len(queue)-1]
 			if p.tooManyInconclusive() {
 				// fail fast: the obligation is inconclusive anyway, do not spend hours on solver time-outs
+				r.Aborted = true
 				queue = nil
 				mu.Unlock()
 				cond.Broadcast()
@@ -417,7 +430,9 @@ func (p *Program) RunObligation(ob *Obligation, tier string) *ObResult {
 
 const maxInconclusive = 12
 
-func (p *Program) tooManyInconclusive() bool { return atomic.LoadInt32(&p.inconclN) >= maxInconclusive }
+func (p *Program) tooManyInconclusive() bool {
+	return atomic.LoadInt32(&p.inconclN) >= maxInconclusive || time.Now().UnixNano() > atomic.LoadInt64(&p.deadline)
+}
 
 // ReadOverlay maps every file of harnessDir/<pkg>/ onto repo/<pkg>/.
 func ReadOverlay(harnessDir, repo string) (map[string][]byte, map[string]string, error) {
